@@ -87,6 +87,12 @@ def run(check, prog):
     r3_saver_filter(check, prog)
     r4_tags(check, prog)
     r5_model(check, prog)
+    # a reloaded model keeps its value-to-place mapping and its ties only if the
+    # map grammar is read back digit for digit and rebuilt scatterers keep the
+    # identity of shared priors (rules shared with C11)
+    from . import c11
+    c11.grammar(check, prog)
+    c11.rebuilding(check, prog)
 
 
 # ----------------------------------------------------------------------
